@@ -329,6 +329,22 @@ def _setattr_mutate_safe(value: Any, attr: str, attr_value: Any, inplace: bool):
         setattr(value, attr, attr_value)
 
 
+def delattr_mutate_safe(obj: Any, attr: str, inplace: bool):
+    """
+    Delete/reset an attribute of `obj`. Unless the caller asked for in-place
+    mutation, `obj` is a private copy made by the calling helper, and so may
+    be written to even if it is an instance of a frozen spec-class.
+    """
+    if (
+        not inplace
+        and getattr(obj, "__spec_class__", None)
+        and hasattr(obj.__delattr__, "__raw__")
+    ):
+        obj.__delattr__(attr, force=True)
+    else:
+        delattr(obj, attr)
+
+
 def prepare_attr_value(
     attr_spec: Attr, instance: Any, value: Any, attrs: Optional[Dict[str, Any]] = None
 ) -> Any:
